@@ -563,6 +563,7 @@ theorem astep_rstep {s s' : Sys} {a : Act} (hr : restrictedAct s a = true)
   case txnPinned th m t => simp only [stepTxnPinned] at h; rstep_auto
   case txnLocked th => simp only [stepTxnLocked] at h; rstep_auto
   case lockBegin th => simp only [stepLockBegin] at h; rstep_auto
+  case scanBatch th n => simp only [stepScanBatch] at h; rstep_auto
   case commitBegin th => simp only [stepCommitBegin] at h; rstep_auto
   case commitA th =>
     simp only [restrictedAct] at hr
